@@ -172,6 +172,29 @@ fn run(op: &str, a: &[&str]) -> String {
             assert!(y.residue() == z.residue(), "sqr differs from x * x");
             format!("ok {}", hu(&z.residue()))
         }
+        // hist <v0> <v1> ... : a short history with state.  The destination starts as v0 and receives v1, v2, ... through
+        // Clone::clone_from (buffer reuse / reallocation / inline shortcut are counted in WORDS: a value of 65..128 bits is inline
+        // in the 64-bit builds and heap-stored in the 32-bit builds); the same is done to an FBig (significand) and an RBig
+        // (numerator).  After every step: the value through raw words, and at the end the decimal text, the JSON text read back
+        // and the layout flag of the final destination.
+        "hist" => {
+            let mut dst = ibig(a[0]);
+            let mut f = FBig::<dashu_float::round::mode::Zero, 10>::from_parts(ibig(a[0]), 3);
+            let mut q = rbig(a[0], "7");
+            let mut out = String::new();
+            for t in &a[1..] {
+                let src = ibig(t);
+                dst.clone_from(&src);
+                f.clone_from(&FBig::<dashu_float::round::mode::Zero, 10>::from_parts(src.clone(), 5));
+                q.clone_from(&rbig(t, "b"));
+                let same = f.repr().significand() * IBig::from(10).pow(f.repr().exponent() as usize) == &src * IBig::from(10).pow(5)
+                    && q.numerator() * IBig::from(11) == &src * IBig::from(q.denominator().clone());
+                out.push_str(&format!(" {} {}", hi(&dst), b01(same)));
+            }
+            let j = js(&dst);
+            let back: IBig = serde_json::from_str(&j).expect("json round trip");
+            format!("ok{} {} {} {}", out, hexs(format!("{}", dst).as_bytes()), hi(&back), b01(lay_i(&dst)))
+        }
         // cdivrem <a> <m>: division by a prepared ConstDivisor in every form (value, reference, assign, / and %)
         "cdivrem" => {
             let ring = ConstDivisor::new(ubig(a[1]));
